@@ -438,10 +438,17 @@ pub fn run(ctx: &Ctx) -> Report {
             texts.push(build_text(tok, 0, 0));
             texts.push(build_text(tok, 2, 0));
         }
+        // nesting right at the limit: the budget a parser starts with belongs to its construction
+        // too (mutant: Parser::with_options starting with one level more than Parser::new)
+        for t in crate::corpus::depth_boundary_texts() {
+            if t.starts_with(b"(") && (t.ends_with(b"x)") || t.len() % 7 == 0) || t.starts_with(b"'") {
+                texts.push(t);
+            }
+        }
         let nt = texts.len() as u64;
         let sub = Sub::new(
             "constructions",
-            "for all 1536 option sets: the set built by calling every builder method explicitly, the set built from Options::new() by calling only the methods for options that differ from the documented empty set (additive keyword calls), and the set reached from Options::elisp() by overriding every option read every corpus token (top level and inside a list) identically, and the getters report the set; the presets Options::default() and Options::elisp() and the entry points from_str / from_slice / from_reader (and their _elisp variants) read every token like the documented default / Emacs Lisp option sets built explicitly; non-trivial = every case",
+            "for all 1536 option sets: the set built by calling every builder method explicitly, the set built from Options::new() by calling only the methods for options that differ from the documented empty set (additive keyword calls), and the set reached from Options::elisp() by overriding every option read every corpus token (top level and inside a list) identically, and the getters report the set; the presets Options::default() and Options::elisp() and the entry points from_str / from_slice / from_reader (and their _elisp variants) and the parser constructors without an options argument read every token (and nesting right at the limit) like the documented default / Emacs Lisp option sets built explicitly; non-trivial = every case",
             &format!("{} texts x 1536 option sets x 3 constructions + presets", nt),
         );
         let accs = par_ranks(nt * N_PO, |rank, acc| {
@@ -473,9 +480,18 @@ pub fn run(ctx: &Ctx) -> Report {
             }
             let presets: Vec<(&str, Outcome)> = if po == PO::default_() {
                 let mut v = vec![("Options::default()", parse_slice(text, lexpr::parse::Options::default())), ("from_slice", crate::outcome::norm(guard(|| lexpr::from_slice(text)))), ("from_reader", crate::outcome::norm(guard(|| lexpr::from_reader(&text[..]))))];
+                // the constructors without an options argument (Parser::new)
+                fn one<'de, R: lexpr::parse::Read<'de>>(mut p: lexpr::parse::Parser<R>) -> Result<lexpr::Value, lexpr::parse::Error> {
+                    let v = p.expect_value()?;
+                    p.expect_end()?;
+                    Ok(v)
+                }
+                v.push(("Parser::from_slice", crate::outcome::norm(guard(|| one(lexpr::parse::Parser::from_slice(text))))));
+                v.push(("from_reader via Parser::from_reader", crate::outcome::norm(guard(|| one(lexpr::parse::Parser::from_reader(&text[..]))))));
                 if let Ok(s) = std::str::from_utf8(text) {
                     v.push(("from_str", crate::outcome::norm(guard(|| lexpr::from_str(s)))));
                     v.push(("str::parse", crate::outcome::norm(guard(|| s.parse::<lexpr::Value>()))));
+                    v.push(("Parser::from_str", crate::outcome::norm(guard(|| one(lexpr::parse::Parser::from_str(s))))));
                 }
                 v
             } else if po == PO::elisp() {
